@@ -20,9 +20,10 @@ def node_fields(m: base.RawTreeModel) -> list[tuple[str, Any]]:
         return [('placeholder', m.placeholder)] + [(f'items[{i}]', it) for i, it in enumerate(m.items)]
     if isinstance(m, (models.NumberAddExpr, models.NumberMulExpr)):
         out = []
-        for i, opd in enumerate(m._raw_operands):
+        ops = m.raw_ops                      # public properties (the private storage may be named differently)
+        for i, opd in enumerate(m.raw_operands):
             if i:
-                out.append((f'ops[{i-1}]', m._raw_ops[i - 1]))
+                out.append((f'ops[{i-1}]', ops[i - 1]))
             out.append((f'operands[{i}]', opd))
         return out
     seen = {}
